@@ -132,10 +132,15 @@ def pure_cfg(spec="TSpec"):
 
 
 def finish(prop, tier, seed, level, cov, t0, violations, known_names, kf_seen, assumptions):
-    known = {k["kf"]: k for k in vlib.load_known_findings() if k["property"] == prop and "kf" in k}
+    allk = [k for k in vlib.load_known_findings() if "kf" in k]
+    known = {k["kf"]: k for k in allk if k["property"] == prop}
+    elsewhere = {k["kf"]: k["property"] for k in allk if k["property"] != prop}
     for name in sorted(kf_seen):
         if name in known:
             print("KNOWN-FINDING: property=%s %s: %s" % (prop, name, known[name]["what"]))
+        elif name in elsewhere:
+            # a listed finding that another property judges (this property says nothing about the behaviour): noted only
+            cov.setdefault("findings_judged_elsewhere", []).append({"kf": name, "property": elsewhere[name]})
         else:
             violations.append({"reason": "finding class '%s' is not a listed known finding of %s" % (name, prop),
                                "record": kf_seen[name]})
